@@ -463,6 +463,68 @@ def real_td_deser(s):
     return {"ok": [r.days, r.seconds, r.microseconds]}
 
 
+def real_b64_enc(b):
+    try:
+        return {"s": handler(bytes).serializer(bytes(b))}
+    except Exception as ex:  # noqa: BLE001
+        return {"err": err_name(ex)}
+
+
+def real_b64_dec(s, tp=bytes):
+    try:
+        r = handler(tp).deserializer(s)
+    except Exception as ex:  # noqa: BLE001
+        return {"err": err_name(ex)}
+    if type(r) is not tp:
+        return {"err": "Other:result-" + type(r).__name__}
+    return {"ok": list(r)}
+
+
+def real_uuid_str(n):
+    import uuid
+
+    try:
+        return {"s": handler(uuid.UUID).serializer(uuid.UUID(int=n))}
+    except Exception as ex:  # noqa: BLE001
+        return {"err": err_name(ex)}
+
+
+def real_uuid_deser(s):
+    import uuid
+
+    try:
+        r = handler(uuid.UUID).deserializer(s)
+    except Exception as ex:  # noqa: BLE001
+        return {"err": err_name(ex)}
+    if type(r) is not uuid.UUID:
+        return {"err": "Other:result-" + type(r).__name__}
+    return {"ok": r.int}
+
+
+B64_ALPHA = list("ABab01+/=- \n_.") + ["==", "="]
+B64_TEXTS = ["", "=", "==", "A", "AA", "AAA", "AAAA", "A=", "AA=", "AA==", "AAA=", "AA=A", "AA=A=", "A===", "AA===", "=AAA", "A=AAA", "AA=AA", "AAA=A", "AAAA=",
+             "AAAAA", "AAAAAA==", "AAAAAA=", "AA\n==", "AA = =", "AA==AAAA", "AAA=AAAA", "A A A A", "AA.=.=", "1234", "true", "null", "+123", "1e10", "0x1F", "aGk=", "-_-_"]
+UUID_ALPHA = list("0123456789abcdefABCDEFx-_{} urn:uuid+g") + ["urn:", "uuid:", "{", "}", "0x", "-", "_"]
+UUID_TEXTS = ["{12345678-1234-5678-1234-567812345678}", "urn:uuid:12345678-1234-5678-1234-567812345678", "12345678123456781234567812345678",
+              "0x345678123456781234567812345678", "+2345678123456781234567812345678", "-0000000000000000000000000000000", "-0000000000000000000000000000001",
+              "1_345678123456781234567812345678", " 2345678123456781234567812345678", "12345678-1234-5678-1234-56781234567", "",
+              "uuuuid:rn:12345678123456781234567812345678", "0X_45678123456781234567812345678", "0x__5678123456781234567812345678",
+              "{{{12345678123456781234567812345678}", "}12345678123456781234567812345678{", "1234567812345678123456781234567\n",
+              "\t234567812345678123456781234567\n", "0x0x5678123456781234567812345678", "__345678123456781234567812345678", "1234567812345678123456781234567_",
+              "+_345678123456781234567812345678", "0b345678123456781234567812345678", "ururn:n:12345678123456781234567812345678", "1234567e-1234-5678-1234-567812345678",
+              "0e123456-1234-5678-1234-567812345678", "FFFFFFFF-FFFF-FFFF-FFFF-FFFFFFFFFFFF", "ffffffff-ffff-ffff-ffff-fffffffffffg"]
+
+
+def yaml_tag_of(v):
+    """the tag the YAML loader gave a plain scalar, by the type of the loaded value"""
+    if v is None:
+        return "null"
+    for t, n in ((bool, "bool"), (int, "int"), (float, "float"), (str, "str")):
+        if isinstance(v, t):
+            return n
+    return "other"
+
+
 # ---------------------------------------------------------------- codecs: generators
 def gen_int(rng):
     r = rng.random()
@@ -790,12 +852,14 @@ def run(ctx: Ctx):
         "texts are ASCII in the Lean model (non-ASCII digits and blanks are checked against the independent predicate only); int() digit limit (4300) not reached",
         "float(int)/float(str) are CPython's correctly rounded conversions, modelled by roundDouble and validated by correspondence; the sign of zero is not represented",
         "timedelta(**floats) is modelled on exact rationals: agrees with CPython for texts with <= 6 fraction digits and fields < 2^53 (the generators stay inside)",
-        "base64, complex(), UUID(), pathlib constructors are not modelled: their round trips are evaluated on the real code only",
+        "base64 (a2b_base64 non-strict) and UUID(text) are modelled on ASCII texts; complex() and pathlib constructors are not modelled: their round trips are evaluated on the real code only",
+        "C20_text_safe/_plain_* speak about the YAML resolvers (engine Scalar, tables regenerated from the live Loader/Dumper); the emitter's analyze_scalar can only add quotes; "
+        "the command line does not pass through the YAML loader for registered types",
         "None / 'null' handling of the parser (accepted when the default is None) is outside C20",
         "regex flags are resolved by the translation into the model's Re (case folding, DOTALL, MULTILINE anchors, ASCII \\s, VERBOSE via re._parser) for ASCII subjects; "
         "re.LOCALE, look-around, back-references and non-ASCII subjects (Unicode case folding, Unicode \\w/\\d) are oracle-only",
     ]
-    ctx.lean_build(extractors=["registered"])
+    ctx.lean_build(extractors=["registered", "resolvers"])
     from ..lib import corpus as corpus_mod
 
     corpus = corpus_mod.load(ctx.prop)
@@ -1057,6 +1121,93 @@ def _run(ctx: Ctx, corpus, boost, tmpdir):
         ctx.hist("td_text", "parses" if "ok" in real else "rejected")
         if "ok" in real:
             ctx.nontrivial(("td_text", s))
+    # bytes / bytearray (base64) and UUID codecs
+    byte_strings = [[], [0], [255], [0, 0], [104, 105], [1, 2, 3], [215, 109, 248], [182, 187, 158], list(range(256))]
+    for n in list(range(0, 9)) + [16, 33]:
+        for _ in range(ctx.budget(6, 60) * boost):
+            byte_strings.append([ctx.rng.randrange(256) for _ in range(n)])
+    b64_texts = list(B64_TEXTS)
+    for b in byte_strings:
+        e = real_b64_enc(b)
+        lines.append({"op": "b64_enc", "b": b})
+        expect.append((len(lines) - 1, "b64_enc", (b, e)))
+        ctx.count()
+        if "s" in e:
+            b64_texts.append(e["s"])
+            for _ in range(2):
+                b64_texts.append(mutate_text(ctx.rng, e["s"], B64_ALPHA))
+            b64_texts.append(mutate_text(ctx.rng, mutate_text(ctx.rng, e["s"], B64_ALPHA), B64_ALPHA))
+    uuids = [0, 1, 2 ** 128 - 1, 0x12345678123456781234567812345678, 2 ** 64, 2 ** 127]
+    for _ in range(ctx.budget(60, 800) * boost):
+        uuids.append(ctx.rng.choice([ctx.rng.getrandbits(128), ctx.rng.getrandbits(64), ctx.rng.getrandbits(12), ctx.rng.getrandbits(128) | (0xF << 124)]))
+    uuid_texts = list(UUID_TEXTS)
+    for u in uuids:
+        e = real_uuid_str(u)
+        lines.append({"op": "uuid_str", "u": [u]})
+        expect.append((len(lines) - 1, "uuid_str", (u, e)))
+        ctx.count()
+        if "s" in e:
+            uuid_texts.append(e["s"])
+            for _ in range(2):
+                uuid_texts.append(mutate_text(ctx.rng, e["s"], UUID_ALPHA))
+    for c in corpus:
+        if c.get("kind") == "b64_text":
+            b64_texts.append(c["s"])
+        if c.get("kind") == "uuid_text":
+            uuid_texts.append(c["s"])
+    for t in [x for x in b64_texts if x.isascii()]:
+        real = real_b64_dec(t)
+        lines.append({"op": "b64_dec", "s": t})
+        expect.append((len(lines) - 1, "b64_dec", (t, real)))
+        ctx.count()
+        ctx.hist("b64_text", "parses" if "ok" in real else "rejected")
+        if "ok" in real and real["ok"]:
+            ctx.nontrivial(("b64_text", t))
+        if real_b64_dec(t, bytearray) != real:
+            ctx.violation("bytearray_deserializer and bytes_deserializer disagree on %r" % t, {"kind": "b64-pair", "s": t})
+    for t in [x for x in uuid_texts if x.isascii()]:
+        real = real_uuid_deser(t)
+        lines.append({"op": "uuid_deser", "s": t})
+        expect.append((len(lines) - 1, "uuid_deser", (t, real)))
+        ctx.count()
+        ctx.hist("uuid_text", "parses" if "ok" in real else "rejected")
+        if "ok" in real:
+            ctx.nontrivial(("uuid_text", t))
+    # which tag the YAML loader gives the serialised texts when they are written plain (C20_text_plain_* / C20_text_safe)
+    from jsonargparse._loaders_dumpers import dumpers, loaders
+
+    plain_texts = {"range": [real_range_ser(r).get("s") for r in ranges[:300]], "timedelta": [real_td_str(t).get("s") for t in tds[:400]],
+                   "uuid": [real_uuid_str(u).get("s") for u in uuids[:300]], "bytes": [real_b64_enc(b).get("s") for b in byte_strings[:300]]}
+    plain_texts["timedelta"] += ["1:00:00", "0:00:00.500000", "23:59:59", "0:59:59", "10:00:00.000001"]
+    plain_texts["bytes"] += ["1234", "true", "null", "1e10", "+123", "0x1F", "MTIz"]
+    n_text_viol = 0
+    for kind, texts in plain_texts.items():
+        for t in texts:
+            if not t:
+                continue  # the empty base64 text: a null for YAML, quoted by the dumper
+            try:
+                loaded = loaders["yaml"](t)
+            except Exception as ex:  # noqa: BLE001
+                loaded = ex
+            tag = yaml_tag_of(loaded) if not isinstance(loaded, Exception) else "error"
+            lines.append({"op": "resolve", "s": t})
+            expect.append((len(lines) - 1, "resolve", (t, tag)))
+            ctx.count()
+            ctx.hist("plain_text." + kind, tag)
+            # on the real code: whatever the dumper writes for this text is read back as the same string
+            try:
+                back = loaders["yaml"](dumpers["yaml"]({"x": t}))["x"]
+            except Exception as ex:  # noqa: BLE001
+                back = ex
+            must_plain_str = (kind == "range" or kind == "uuid" or (kind == "timedelta" and " day" in t) or (kind == "bytes" and t.endswith("=")))
+            desc = None
+            if not (isinstance(back, str) and back == t):
+                desc = "dumped as a YAML value it is read back as %r" % (back,)
+            elif must_plain_str and tag != "str":
+                desc = "written plain it is read by the YAML loader as %s" % tag
+            if desc is not None and n_text_viol < 3:
+                n_text_viol += 1
+                ctx.violation("serialised %s text %r: %s" % (kind, t, desc), {"kind": "text-safe", "type": kind, "s": t})
     lines.append({"op": "secret", "s": "hunter2"})
     expect.append((len(lines) - 1, "secret", None))
     ctx.sample({"range_texts": range_texts[-3:], "td_texts": td_texts[-3:]})
@@ -1081,6 +1232,15 @@ def _run(ctx: Ctx, corpus, boost, tmpdir):
                         if disagreements <= 4:
                             ctx.tie_break("correspondence E8 (%s: typing.py vs Lean model) disagrees" % kind,
                                           json.dumps({"case": repr(head), "value": repr(v), "real": a, "model": b}, ensure_ascii=True)[:1500])
+            elif kind == "resolve":
+                text, tag = payload
+                names = ["str", "null", "bool", "int", "float"]
+                mtag = names[got.get("l", 99)] if got.get("l", 99) < len(names) else "other"
+                if mtag != tag:
+                    disagreements += 1
+                    if disagreements <= 4:
+                        ctx.tie_break("correspondence E8/Scalar (loader tag of a plain serialised text vs resolveLoad) disagrees",
+                                      json.dumps({"text": text, "real": tag, "model": got}, ensure_ascii=True)[:600])
             elif kind == "secret":
                 if got.get("s") != str(m.SecretStr("hunter2")):
                     disagreements += 1
@@ -1113,6 +1273,21 @@ def _run(ctx: Ctx, corpus, boost, tmpdir):
         if back != {"ok": t} and n_rt_viol < 6:
             n_rt_viol += 1
             ctx.violation("timedelta %r does not survive str -> timedelta_deserializer: %r" % (t, back), {"kind": "codec-rt", "type": "timedelta", "value": t})
+
+    for b in byte_strings:
+        e = real_b64_enc(b)
+        back = real_b64_dec(e["s"]) if "s" in e else e
+        ctx.count()
+        if back != {"ok": b} and n_rt_viol < 8:
+            n_rt_viol += 1
+            ctx.violation("bytes %r do not survive bytes_serializer -> bytes_deserializer: %r" % (bytes(b), back), {"kind": "codec-rt", "type": "bytes", "value": b})
+    for u in uuids:
+        e = real_uuid_str(u)
+        back = real_uuid_deser(e["s"]) if "s" in e else e
+        ctx.count()
+        if back != {"ok": u} and n_rt_viol < 10:
+            n_rt_viol += 1
+            ctx.violation("UUID %032x does not survive str -> UUID: %r" % (u, back), {"kind": "codec-rt", "type": "UUID", "value": str(u)})
 
     # ================================================================ oracle: restricted types through a real parser
     n_p_viol = 0
@@ -1296,6 +1471,17 @@ def replay_case(b, quiet=False):
         say("pattern %r flags %s, value %r -> %r; %s" % (b["pattern"], flags, v, res, desc))
         return desc is not None
     if kind == "codec-rt":
+        if b["type"] == "bytes":
+            e = real_b64_enc(b["value"])
+            back = real_b64_dec(e["s"]) if "s" in e else e
+            say("bytes", b["value"], "->", e, "->", back)
+            return back != {"ok": b["value"]}
+        if b["type"] == "UUID":
+            u = int(b["value"])
+            e = real_uuid_str(u)
+            back = real_uuid_deser(e["s"]) if "s" in e else e
+            say("UUID", u, "->", e, "->", back)
+            return back != {"ok": u}
         if b["type"] == "range":
             r = [int(x) for x in b["value"]]
             s = real_range_ser(r)
@@ -1320,6 +1506,17 @@ def replay_case(b, quiet=False):
         for f in fails:
             say("%s %r: dump(%s) -> parse from %s %s" % (b["type"], v, f[0], f[1], f[2]))
         return bool(fails)
+    if kind == "text-safe":
+        from jsonargparse._loaders_dumpers import dumpers, loaders
+
+        t = b["s"]
+        back = loaders["yaml"](dumpers["yaml"]({"x": t}))["x"]
+        plain = loaders["yaml"](t)
+        say("text %r: dump/load -> %r; read plain -> %r" % (t, back, plain))
+        must = b["type"] in ("range", "uuid") or (b["type"] == "timedelta" and " day" in t) or (b["type"] == "bytes" and t.endswith("="))
+        return not (isinstance(back, str) and back == t) or (must and not isinstance(plain, str))
+    if kind == "b64-pair":
+        return real_b64_dec(b["s"], bytearray) != real_b64_dec(b["s"])
     if kind == "secret":
         from jsonargparse.typing import SecretStr
 
